@@ -35,6 +35,8 @@ T = {
             "Each grammar and its textual inlining are both model-checked against the reference and run on the real code; results, ranges, error positions and the generated public type declarations must agree between twins.", "inlining is done by the generator (gen/families.py inline)", "4 C13"),
     "C14": (MC, "TLC CheckExtern with mirrored oracle library + replay with recorded user-function calls",
             "User functions are a small library defined once in TLA+ and once in Rust; TLC checks machine vs reference under these oracles; real parsers must agree and every recorded extern call must be one the specification makes.", "the mirrored library (PegValues.tla / oracles.rs) is the oracle", "4 C14"),
+    "C18": (MC, "TLC over all histories of the BuildScript protocol (intended and implementation-shaped) + replay of every history against the real Compile",
+            "The file protocol {edit grammar, change prefix, delete destination, run} is model-checked for Fresh / Untouched / FailSafe in its intended form; the implementation-shaped form (run_on_single_file line by line) may deviate only in the two recorded findings (TLC must still find the flaw); every TLC history is replayed against the real Compile in a scratch directory (file / explicit destination / directory mode, formatting off and on) and the predicates are evaluated on the real files after every run.", "expected bytes come from a fresh library compilation; directory mode replayed with one grammar file; two known findings (known_findings.json)", "4 C18"),
     "C19": (MC, "TLC Balanced invariant + NestingMonitor trace validation of real ParseTracer callbacks; parse_with_trace vs parse",
             "depth is a natural number in the model, every exit path is a distinct action; the callback sequence of a recording ParseTracer is validated by TLC against NestingMonitor; results with RecTracer and the library's IndentedTracer must equal the plain result.", "stderr of IndentedTracer is discarded", "4 C19"),
 }
